@@ -729,9 +729,9 @@ def value_seed(seed: int, entry: Entry, cfg: dict, shapes: dict) -> int:
     return int(hashlib.sha1(f"{seed}|{entry.name}|{sorted(cfg.items())}|{shape_str(shapes)}".encode()).hexdigest()[:12], 16)
 
 
-def run_real(entry: Entry, cfg: dict, shapes: dict, rng: Rng, spy: Spy | None, degenerate: bool = False):
-    hi = entry.label_hi(shapes)
-    args = {a: build(entry.role(a, shapes), s, rng, cfg, hi, degenerate) for a, s in shapes.items()}
+def call_entry(entry: Entry, cfg: dict, args: dict, spy: Spy | None):
+    """one real call of an entry (functional, or update() followed by compute()) on concrete arguments:
+    ("ok", value) | ("err", kind, message, "call" | "compute") and the check-helper invocations seen"""
     if spy is not None:
         spy.current = []
     try:
@@ -745,6 +745,64 @@ def run_real(entry: Entry, cfg: dict, shapes: dict, rng: Rng, spy: Spy | None, d
     if spy is not None:
         spy.current = None
     return out, recs
+
+
+def run_real(entry: Entry, cfg: dict, shapes: dict, rng: Rng, spy: Spy | None, degenerate: bool = False):
+    hi = entry.label_hi(shapes)
+    args = {a: build(entry.role(a, shapes), s, rng, cfg, hi, degenerate) for a, s in shapes.items()}
+    out, recs = call_entry(entry, cfg, args, spy)
+    return out, recs, args
+
+
+def arg_desc(v):
+    """an argument as it was passed: tensor with dtype and shape | str | list of str | list of reference lists | None"""
+    if isinstance(v, torch.Tensor):
+        return {"shape": list(v.shape), "dtype": str(v.dtype).replace("torch.", ""), "data": v.reshape(-1).tolist()}
+    return v
+
+
+def arg_undesc(d):
+    if isinstance(d, dict) and {"shape", "dtype", "data"} <= set(d):
+        return torch.tensor(d["data"], dtype=getattr(torch, d["dtype"])).reshape(tuple(d["shape"]))
+    return d
+
+
+def shapes_of_args(args: dict) -> dict:
+    """the shape tuple the contract is stated about, read off concrete arguments (text: () = one string, (n,) = n strings)"""
+    out = {}
+    for a, v in args.items():
+        if v is None:
+            out[a] = None
+        elif isinstance(v, torch.Tensor):
+            out[a] = tuple(v.shape)
+        elif isinstance(v, str):
+            out[a] = ()
+        else:
+            out[a] = (len(v),)
+    return out
+
+
+def contract_verdict(entry: Entry, cfg: dict, shapes: dict, valid, out):
+    """THE PROPERTY on one real call: (violated relation | None, reason when a rejection is excused).
+      returned a value on a shape tuple outside the documented contract            -> "accepted-and-returned"
+      raised in the call that received a documented-valid tuple (no excuse applies)  -> "valid-input-rejected"
+    `valid` None (the docstring does not decide) is never a violation.  Used by `judge` and by `replay`."""
+    if valid is None:
+        return None, "unspecified-by-the-docstring"
+    if out[0] == "ok":
+        return (None, "") if valid else ("accepted-and-returned", "")
+    if not valid:
+        return None, ""
+    if out[3] == "compute":
+        return None, "valid-accepted-by-update,compute-raised(not C18)"
+    first = next((v for v in shapes.values() if v is not None), ())
+    if len(first) >= 1 and first[0] < entry.min_samples:
+        return None, "rejected-insufficient-samples(documented)"
+    if any(d == 0 for v in shapes.values() if v is not None for d in v):
+        return None, "rejected-empty-input"        # zero samples / classes: no metric is defined, not a shape fault
+    if entry.stem == "topk_multilabel_accuracy" and first[-1] < cfg.get("k", 2):
+        return None, "rejected-k-exceeds-classes(parameter)"
+    return "valid-input-rejected", ""
 
 
 def describe_value(v):
@@ -780,23 +838,24 @@ class Outcome:
     recs: list
     vseed: int = 0
     degenerate: bool = False
+    args: dict = field(default_factory=dict)
 
 
 def evaluate(rep: Report, entry: Entry, label: str, cfg: dict, pattern: str, shapes: dict, rng: Rng, spy: Spy, pending: list):
     valid = entry.valid(cfg, shapes)            # True / False / None (= the docstring does not decide)
     vseed, degenerate = value_seed(rep.seed, entry, cfg, shapes), False
-    out, recs = run_real(entry, cfg, shapes, Rng(vseed), spy)
+    out, recs, args = run_real(entry, cfg, shapes, Rng(vseed), spy)
     if out[0] == "err" and valid is False:
         # a rejection must not depend on the VALUES: try other legal values (rejected by a later kernel: two more
         # draws + the all-zero labels; rejected inside a check helper, possibly only at compute(): all-zero labels)
         for extra in ((1, 2, 3) if not any(r["real"] != "ok" for r in recs) else (3,)):
-            out2, recs2 = run_real(entry, cfg, shapes, Rng(vseed + extra), spy, degenerate=(extra == 3))
+            out2, recs2, args2 = run_real(entry, cfg, shapes, Rng(vseed + extra), spy, degenerate=(extra == 3))
             rep.count("late-rejection-retried-with-other-values")
             if out2[0] == "ok":
-                out, recs, vseed, degenerate = out2, recs2, vseed + extra, extra == 3
+                out, recs, args, vseed, degenerate = out2, recs2, args2, vseed + extra, extra == 3
                 rep.count("late-rejection-was-value-dependent")
                 break
-    o = Outcome(entry, label, cfg, pattern, shapes, valid, out, recs, vseed, degenerate)
+    o = Outcome(entry, label, cfg, pattern, shapes, valid, out, recs, vseed, degenerate, args)
     pending.append(o)
     name = entry.name
     rep.count(f"{name}:perturbations" if pattern != "base" else f"{name}:base-calls")
@@ -814,7 +873,9 @@ def evaluate(rep: Report, entry: Entry, label: str, cfg: dict, pattern: str, sha
 
 
 def payload(o: Outcome, kind: str):
-    return {"entry": o.entry.name, "label": o.label, "cfg": o.cfg, "shapes": {k: (list(v) if v is not None else None) for k, v in o.shapes.items()},
+    return {"entry": o.entry.name, "entry_index": next((i for i, e in enumerate(ENTRIES) if e is o.entry), None), "label": o.label, "cfg": o.cfg,
+            "shapes": {k: (list(v) if v is not None else None) for k, v in o.shapes.items()},
+            "args": {a: arg_desc(v) for a, v in o.args.items()},
             "pattern": o.pattern, "kind": kind, "value_seed": o.vseed, "degenerate_values": o.degenerate, "roles": {a: o.entry.role(a, o.shapes) for a in o.shapes},
             "outcome": describe_value(o.out[1]) if o.out[0] == "ok" else list(o.out[1:])}
 
@@ -863,27 +924,17 @@ def judge(rep: Report, pending: list[Outcome], spy: Spy):
                 rep.count(f"gap:{o.entry.stem}:{gap}")
                 if gap == "-":
                     rep.broke(f"gap-patterns:{o.entry.stem}", f"check accepted the undocumented tuple {shape_str(o.shapes)} cfg={o.cfg} but no pattern of patterns_{o.entry.stem} matches", payload(o, "gap"))
-        if o.out[0] == "ok" and not o.valid:
+        rel, excuse = contract_verdict(o.entry, o.cfg, o.shapes, o.valid, o.out)
+        if rel == "accepted-and-returned":
             pat = o.pattern if gap in (None, "-") else gap.split(";")[0]
             sig = f"C18|{name}|{pat}|accepted-and-returned"
             if sig not in reported:
                 reported.add(sig)
                 rep.violation(sig, f"{name}({shape_str(o.shapes)}, cfg={o.cfg}) [base {o.label}, {o.pattern}] is outside the documented shape contract but returned {describe_value(o.out[1])}",
                               payload(o, "accepted-and-returned"))
-        if o.out[0] == "err" and o.valid:
-            if o.out[3] == "compute":
-                rep.count(f"{name}:valid-accepted-by-update,compute-raised(not C18)")
-                continue
-            first = next((v for v in o.shapes.values() if v is not None), ())
-            if len(first) >= 1 and first[0] < o.entry.min_samples:
-                rep.count(f"{name}:rejected-insufficient-samples(documented)")
-                continue
-            if any(d == 0 for v in o.shapes.values() if v is not None for d in v):
-                rep.count(f"{name}:rejected-empty-input")        # zero samples / classes: no metric is defined, not a shape fault
-                continue
-            if o.entry.stem == "topk_multilabel_accuracy" and first[-1] < o.cfg.get("k", 2):
-                rep.count(f"{name}:rejected-k-exceeds-classes(parameter)")
-                continue
+        if rel is None and excuse and o.out[0] == "err":
+            rep.count(f"{name}:{excuse}")
+        if rel == "valid-input-rejected":
             a0 = next(a for a, v in o.shapes.items() if v is not None)
             cls_ = "(" + ",".join("1" if d == 1 else "n" for d in o.shapes[a0]) + ")"
             extra = "".join(f",{k}={o.cfg[k]}" for k in ("num_tasks", "n_tasks", "num_queries") if k in o.cfg)
@@ -1075,17 +1126,50 @@ def search(rep: Report):
         spy.close()
 
 
+def _nothing(reason):
+    raise ValueError(f"nothing to replay: {reason}")
+
+
 def replay(payload_: dict) -> bool:
-    p = payload_.get("replay", payload_)
-    entry = next((e for e in ENTRIES if e.name == p["entry"] and set(e.roles) >= set(p["shapes"]) and any(b[0] == p.get("label") for b in e.bases)), None)
+    """True iff the property holds on the recorded call.  The entry is looked up in the case table, the call is made again with the
+    RECORDED ARGUMENTS (tensors with their dtype, shape and values, text as recorded) and judged by `contract_verdict` — the
+    function `judge` applies in the sweep — against the documented contract of that entry (`entry.valid`).
+    Payloads recorded before the arguments were part of the replay dict rebuild their values from the recorded value seed."""
+    if not isinstance(payload_, dict):
+        _nothing("payload is not a dict")
+    if "replay" in payload_ or "property" in payload_:
+        if payload_.get("kind", "failing-input") != "failing-input":
+            _nothing(f"payload kind {payload_.get('kind')!r} carries no concrete input")
+        p = payload_.get("replay")
+    else:
+        p = payload_
+    if not isinstance(p, dict) or not p:
+        _nothing("the payload carries no replay dict")
+    if p.get("kind") not in ("accepted-and-returned", "valid-input-rejected"):
+        _nothing(f"replay kind {p.get('kind')!r} is not a shape-contract case (accepted-and-returned / valid-input-rejected)")
+    if not isinstance(p.get("entry"), str) or not isinstance(p.get("shapes"), dict) or not isinstance(p.get("cfg"), dict):
+        _nothing("the payload lacks the entry point, its configuration or the shape tuple")
+    idx = p.get("entry_index")
+    entry = ENTRIES[idx] if isinstance(idx, int) and 0 <= idx < len(ENTRIES) and ENTRIES[idx].name == p["entry"] and set(ENTRIES[idx].roles) >= set(p["shapes"]) else None
     if entry is None:
-        entry = next(e for e in ENTRIES if e.name == p["entry"] and set(e.roles) >= set(p["shapes"]))
+        entry = next((e for e in ENTRIES if e.name == p["entry"] and set(e.roles) >= set(p["shapes"]) and any(b[0] == p.get("label") for b in e.bases)), None)
+    if entry is None:
+        entry = next((e for e in ENTRIES if e.name == p["entry"] and set(e.roles) >= set(p["shapes"])), None)
+    if entry is None:
+        _nothing(f"no case table for entry {p['entry']!r} with arguments {sorted(p['shapes'])}")
     shapes = {k: (tuple(v) if v is not None else None) for k, v in p["shapes"].items()}
     cfg = dict(p["cfg"])
+    if isinstance(p.get("args"), dict) and set(p["args"]) == set(shapes):
+        args = {a: arg_undesc(v) for a, v in p["args"].items()}
+        if shapes_of_args(args) != shapes and entry.role(next(iter(shapes)), shapes) not in ("text", "refs"):
+            _nothing(f"the recorded arguments have shapes {shapes_of_args(args)}, the recorded shape tuple is {shapes}")
+        out, _ = call_entry(entry, cfg, args, None)
+    else:
+        out, _, _args = run_real(entry, cfg, shapes, Rng(p.get("value_seed", 0)), None, degenerate=bool(p.get("degenerate_values", False)))
     valid = entry.valid(cfg, shapes)
-    out, _ = run_real(entry, cfg, shapes, Rng(p.get("value_seed", 0)), None, degenerate=bool(p.get("degenerate_values", False)))
     if valid is None:
-        return True
-    if out[0] == "ok":
-        return bool(valid)      # returned a value: must be a documented shape
-    return (not valid) or out[3] == "compute"       # raised: fine unless a valid input was refused by the call that received it
+        _nothing("the documented contract does not decide this shape tuple (unspecified by the docstring)")
+    rel, excuse = contract_verdict(entry, cfg, shapes, valid, out)
+    if rel:
+        print(f"replay: C18|{entry.name}|…|{rel}: {entry.name}({shape_str(shapes)}, cfg={cfg}) valid={valid} -> " + (f"returned {describe_value(out[1])}" if out[0] == "ok" else f"raised {out[1]}: {out[2]}"))
+    return rel is None
